@@ -19,6 +19,9 @@ func (c *Cluster) hApiVersions(b *Broker, r *Request, act *Action) map[string]an
 	sort.Ints(keys)
 	var list []any
 	for _, k := range keys {
+		if c.hiddenAPIs[int16(k)] {
+			continue
+		}
 		v := b.Versions[int16(k)]
 		list = append(list, map[string]any{"ApiKey": int64(k), "MinVersion": int64(v[0]), "MaxVersion": int64(v[1])})
 	}
